@@ -5,7 +5,7 @@ from . import C13
 
 META = {
     "level": "other",
-    "explanation": "Necessary structural conditions for build-after-parse to be accepted, canonical and idempotent (the thinnest claim of the set; idempotence itself is not decided): (R1) decode->encode closure: every form a decoder can return is accepted by a branch of its encoder -- Enum returns a table value (the very objects that key the encode table) or EnumInteger (an int, passed through), FlagsEnum returns a dict whose non-underscore keys are exactly the flag names its dict branch ORs back and whose flag test is `all bits of the mask present`, Mapping's tables are inverse, Flag returns a bool and builds one of two constants by truthiness, Hex/HexDump encode is the identity; (R2) private-key discipline: every fixed key that a parse-side method injects into a result container starts with '_', FlagsEnum._encode skips '_' keys, and Struct/Union/LazyStruct._build read the supplied object only under member names, so extra keys are ignored; (R3) Select builds alternatives in the order it parses them and Optional is Select(subcon, Pass); (R4) regenerated filler is parameter-only: the bytes that _build of Padded, Aligned, FixedSized, NullTerminated and Prefixed write besides the inner construct's output are terms over constructor parameters, computed lengths and constants -- never derived from the supplied object, time or randomness. (R5) a wrapper's _build hands the inner construct a constructor-supplied replacement instead of the object only when the object is None (Default, RawCopy) or equals it (Const); Rebuild is frozen as recomputed by design; (R6) the transforming macros decode and encode with an inverse pair over matching units (C10.R1/R2). (R7) every integer bits2integer/bytes2integer can return is accepted by integer2bits/integer2bytes: reference forms and exact two's-complement range of the helpers (shared with C10.R5).",
+    "explanation": "Necessary structural conditions for build-after-parse to be accepted, canonical and idempotent (the thinnest claim of the set; idempotence itself is not decided): (R1) decode->encode closure: every form a decoder can return is accepted by a branch of its encoder -- Enum returns a table value (the very objects that key the encode table) or EnumInteger (an int, passed through), FlagsEnum returns a dict whose non-underscore keys are exactly the flag names its dict branch ORs back and whose flag test is `all bits of the mask present`, Mapping's tables are inverse, Flag returns a bool and builds one of two constants by truthiness, Hex/HexDump encode is the identity; (R2) private-key discipline: every fixed key that a parse-side method injects into a result container starts with '_', FlagsEnum._encode skips '_' keys, and Struct/Union/LazyStruct._build read the supplied object only under member names, so extra keys are ignored; (R3) Select builds alternatives in the order it parses them and Optional is Select(subcon, Pass); (R4) regenerated filler is parameter-only: the bytes that _build of Padded, Aligned, FixedSized, NullTerminated and Prefixed write besides the inner construct's output are terms over constructor parameters, computed lengths and constants -- never derived from the supplied object, time or randomness. (R5) a wrapper's _build hands the inner construct a constructor-supplied replacement instead of the object only when the object is None (Default, RawCopy) or equals it (Const); Rebuild is frozen as recomputed by design; (R6) the transforming macros decode and encode with an inverse pair over matching units (C10.R1/R2). (R7) every integer bits2integer/bytes2integer can return is accepted by integer2bits/integer2bytes: reference forms and exact two's-complement range of the helpers (shared with C10.R5). (R8) the encoders whose output the decoders must read back, shared: canonical LEB128 and ZigZag forms (C03.R7), terminator unit table (C03.R2), XOR/rotation/codec inversion structure (C15.R1/R2/R4).",
     "undecided": "Idempotence and canonicity as such, non-canonical inputs (non-minimal VarInts, arbitrary padding), the gallery formats: value-level, left to dynamic techniques.",
     "trusted_base": ["python ast (3.12)", "sa.summ summariser", "class hierarchy of the model (EnumInteger < int, Container < dict)"],
     "assumptions": [],
@@ -159,6 +159,22 @@ def run(ctx):
     # what the parse-side helpers can return the build-side helpers accept: two's-complement range and bit order (shared with C10.R5)
     from . import C10_helpers
     C10_helpers.run(ctx, "C02.R7")
+    # ---------------------------------------------------------------- R8 what build emits, parse reads back: shared encoders/decoders
+    from .. import interval
+    from . import C03, C15
+    from ..core import Ctx as _Ctx
+    interval.leb128_obligations(ctx, "C02.R8")      # VarInt._build ends every number with a terminal group that _parse stops on
+    C10_helpers.zigzag(ctx, "C02.R8")
+    C03.unit_table_check(ctx, "C02.R8")             # the terminator CString writes is the terminator it looks for
+    sub = _Ctx("C15", ctx.tier, ctx.root, model=ctx.model)
+    sub._summ = summariser(ctx)
+    C15.run(sub)
+    for e in sub.errors:
+        ctx.error("shared C15 rules: " + e)
+    for o in sub.obligations:
+        if o.rule in ("C15.R1", "C15.R2", "C15.R4"):    # XOR same function, rotation build = parse with negated amount, codecs inverse
+            ctx.ob("C02.R8", o.where, o.ok, o.what, key=o.key, loc=o.loc, detail=o.detail)
+    ctx.floor("C02.R8", 20)
 
     ctl = control_model(
         "class Construct(object):\n    pass\nclass Subconstruct(Construct):\n    pass\n"
